@@ -99,7 +99,7 @@ ADDENDA = {
     "C02": "Run-level phase_at_most_once / each_phase_once_and_honest now PROVED for whole runs (token invariant over Mailbox._processed, Order's queue and the Boss buffers), replacing the per-step partial. Also: bad_pake_scared, message_without_key_scared, relabelled_queued_before_pake_rejected; hold/release/dropmsg schedules; oracle clause relabelled-accepted-as-valid. Round 8: cross-stream (application phases vs dilate seqnums) and cross-client scenarios; boss_reorder_buffers_are_separate.",
     "C03": "Also: buffers_independent (dilate-N vs numbered phases), closing_delivers_nothing, all 18 Boss outputs pinned; close/self-close with parked phases.",
     "C04": "Channel hypothesis DISCHARGED: net_receiver_success_exact, net_both_success_exact, net_cut_no_success_no_final, net_sender_success_needs_matching_ack, net_first_bad_frame_no_success hold over C06's connection model for every adversary schedule under C06's own ideal-AEAD hypothesis (WV.Proofs.C04_Net). Round 8: extraction failures beyond PATH_MAX (partial tree; extraction_errors_propagate); 14 present-but-not-the-hash JSON values for the ack's sha256 (send_file_ack_check_shape).",
-    "C05": "Also: config_cwd_is_process_cwd / dest_is_child_of_process_cwd (entry point builds the Config; $PWD never consulted). Round 8: refused_file_offer_touches_nothing / refused_directory_offer_touches_nothing; mutation trace (open-for-write, remove, rename, rmtree) besides the snapshots.",
+    "C05": "Also: config_cwd_is_process_cwd / dest_is_child_of_process_cwd (entry point builds the Config; $PWD never consulted). Round 8: refused_file_offer_touches_nothing / refused_directory_offer_touches_nothing; mutation trace (open-for-write, remove, rename, rmtree) besides the snapshots. Round 9: sequences of receives with ONE Config object (library/GUI/retry loop) through cmd_receive.receive(cfg): receive_leaves_args_unchanged, decision_independent_of_history, every_receive_dest_is_child, never_removes_dir_receives over a fold of receives with the args record threaded through; generated fact Gen.Recv.outlives_receive (writes into args / globals / class attributes in cmd_receive) pinned by no_state_outlives_a_receive; per-receive oracle + receive-changed-user-options.",
     "C06": "Round 8: holding transports and consumers that resume inside registerProducer() (holding_transport_prefix, connectConsumer_registers_first).",
     "C07": "same_link now PROVED on a two-sided model (Sender world + Receiver world + links; strangers are the connections that are no link end): both connect() results are the two ends of one link, the one the Sender wrote `go` on, every other connection closed; result_is_negotiated. Also: listener_lifetime, port_closed_after_success / _once_fired / _by_deadline; late arrivals after every outcome. Round 8: the real HostnameEndpoint's own failures (illegal hostnames), asynchronous port close; start_connector_wiring, connect_failure_is_contender_failure, listener_stop_fire_and_forget.",
     "C08": "Environment includes hostile mailbox participants (DESIGN 11.7). Round 8: the mood of every `close` frame on the wire is judged against the verdict (mood-mismatch); oracle-only runs on the real connection stack (real ClientService + real autobahn handshake + real server protocol): closed exactly once, nothing after it, documented verdict.",
